@@ -96,12 +96,12 @@ def enc_path(p):
     return f"{len(p['pos'])} " + " ".join(fmt_vec(v) + " " + fmt_mat(OCTA[o]) for v, o in zip(p["pos"], p["ori"]))
 
 
-def enc_entry(e, pool):
+def enc_entry(e, pool, tag="L"):
     if "dup" in e:
-        return enc_entry(pool[e["dup"]], pool)
+        return enc_entry(pool[e["dup"]], pool, tag)
     if "coll" in e:
-        return f"C {len(e['coll'])} " + " ".join(enc_entry(c, pool) for c in e["coll"])
-    return f"L {e['leaf']} {enc_path(e)}"
+        return f"C {len(e['coll'])} " + " ".join(enc_entry(c, pool, tag) for c in e["coll"])
+    return f"{tag} {e['leaf']} {enc_path(e)}"
 
 
 def leaves_in_order(entries):
@@ -122,7 +122,7 @@ def leaves_in_order(entries):
 def model_line(c, df=False):
     pool = leaves_in_order(c["entries"])
     fs = " ".join(fmt_mat(f["A"]) + " " + fmt_vec(f["b"]) for f in c["fs"])
-    es = " ".join(enc_entry(e, pool) for e in c["entries"])
+    es = " ".join(enc_entry(e, pool, c.get("tag", "L")) for e in c["entries"])
     ks = " ".join(
         f"{enc_path(s)} {int(s['left'])} {len(s['shape'])} {' '.join(map(str, s['shape']))} "
         f"{len(flat_pixels(s))} {' '.join(fmt_vec(v) for v in flat_pixels(s))}"
@@ -308,5 +308,116 @@ def run_stream(ctx, n_cases):
         elif len(samples) < 2 and len(r) < 400:
             samples.append({"case": c, "output": r})
     stats["distinct_outputs"] = len(seen)
+    stats["samples"] = samples
+    return stats
+
+
+# --------------------------------------------------------------------------------------------------------------------
+# stream `level2-jm` (C02 with C03/C04): getJ / getM of REAL Cuboid magnets — integer positions, octahedral orientation
+# paths, odd integer dimensions, integer polarization — read by sensors with unit / static / rotating orientation paths,
+# pixels, handedness, pixel_agg, sumup, squeeze, nested collections, against the same pipeline model (Model/Level2.lean) with
+# the local-frame field function `indicatorField (boxBody dim) pol`: J in the observer frame = sensor^-1 . magnet orientation
+# . polarization inside the body, 0 outside.  M is compared after multiplication by the exported mu_0 (M = J / mu_0 in the
+# field functions).  Exact after snapping to integers.  A third of the calls pass `in_out` = 'inside' / 'outside' / a
+# misspelt value: for Cuboids the keyword must not change anything (getBH_level1 removes it).
+# --------------------------------------------------------------------------------------------------------------------
+def gen_case_jm(rng):
+    c = gen_case(rng)
+    # box magnets: the affine functions are replaced by (diag(dimension), polarization); dimensions ODD, so that the faces lie
+    # on half-integer coordinates and integer observers are strictly inside or strictly outside (an observer exactly on a face
+    # of a ROTATED magnet is decided by the rounding of scipy's rotation: relative 1e-15 mask against errors of a few ulp)
+    c["fs"] = []
+    for _ in range(rng.choice([1, 2, 3])):
+        dim = [2 * rng.randint(0, 4) + 1 for _ in range(3)]
+        c["fs"].append({"A": [[dim[0], 0, 0], [0, dim[1], 0], [0, 0, dim[2]]], "b": rvec(rng)})
+    nf = len(c["fs"])
+
+    def fix(e):
+        if "coll" in e:
+            for x in e["coll"]:
+                fix(x)
+        elif "leaf" in e:
+            e["leaf"] = e["leaf"] % nf
+
+    for e in c["entries"]:
+        fix(e)
+    c["tag"] = "J"
+    c["field"] = rng.choice("JM")
+    c["in_out"] = rng.choice(["auto", "auto", "auto", "inside", "outside", "bogus"])
+    return c
+
+
+def real_line_jm(c):
+    import warnings
+
+    import magpylib as magpy
+    from magpylib._src.exceptions import MagpylibBadUserInput, MagpylibMissingInput
+
+    pool_objs = []
+
+    def mk(e):
+        if "dup" in e:
+            return pool_objs[e["dup"]]
+        if "coll" in e:
+            return magpy.Collection(*[mk(x) for x in e["coll"]], override_parent=True)
+        f = c["fs"][e["leaf"]]
+        o = magpy.magnet.Cuboid(dimension=[f["A"][i][i] for i in range(3)], polarization=f["b"], position=e["pos"],
+                                orientation=rot_from([OCTA[i] for i in e["ori"]]))
+        pool_objs.append(o)
+        return o
+
+    entries = [mk(e) for e in c["entries"]]
+    sensors = [magpy.Sensor(position=s["pos"], orientation=rot_from([OCTA[i] for i in s["ori"]]), pixel=s["pixel"],
+                            handedness="left" if s["left"] else "right") for s in c["sensors"]]
+    fn = magpy.getJ if c["field"] == "J" else magpy.getM
+    try:
+        with warnings.catch_warnings():
+            warnings.simplefilter("ignore")
+            B = fn(entries, sensors, sumup=c["sumup"], squeeze=c["squeeze"], pixel_agg=None if c["agg"] == "none" else c["agg"],
+                   in_out=c["in_out"])
+    except MagpylibBadUserInput:
+        return "err BadUserInput"
+    except MagpylibMissingInput:
+        return "err MissingInput"
+    except Exception as e:  # noqa: BLE001
+        return f"EXC {type(e).__name__}: {str(e)[:120]}"
+    B = np.asarray(B, dtype=float) * (float(magpy.mu_0) if c["field"] == "M" else 1.0)
+    r = np.rint(B)
+    if B.size and np.max(np.abs(B - r)) > 1e-6:
+        return "UNSNAPPABLE"
+    return "ok shape " + " ".join(map(str, B.shape)) + " | " + " ".join(fmt_vec(v) for v in r.reshape(-1, 3))
+
+
+def run_jm_stream(ctx, n_cases):
+    stats = {"cases": 0, "disagreements": 0, "fields": {}, "in_out": {}, "rotated_sensor_cases": 0, "rotated_source_cases": 0,
+             "nonzero_outputs": 0, "zero_and_nonzero_in_one_output": 0, "errors": {}}
+    cases = []
+    while len(cases) < n_cases:
+        c = gen_case_jm(ctx.rng)
+        if dup_ok(c):
+            cases.append(c)
+    ml = run_driver([model_line(c) for c in cases])
+    samples = []
+    for c, m in zip(cases, ml):
+        r = real_line_jm(c)
+        stats["cases"] += 1
+        stats["fields"][c["field"]] = stats["fields"].get(c["field"], 0) + 1
+        stats["in_out"][c["in_out"]] = stats["in_out"].get(c["in_out"], 0) + 1
+        stats["rotated_sensor_cases"] += any(any(o != ID for o in s["ori"]) for s in c["sensors"])
+        stats["rotated_source_cases"] += any(any(o != ID for o in e["ori"]) for e in leaves_in_order(c["entries"]))
+        if r.startswith("err"):
+            stats["errors"][r] = stats["errors"].get(r, 0) + 1
+        elif " | " in r:
+            vals = r.split(" | ")[1].split()
+            nz = any(v not in ("0", "-0") for v in vals)
+            stats["nonzero_outputs"] += nz
+            trip = [vals[i:i + 3] for i in range(0, len(vals), 3)]
+            stats["zero_and_nonzero_in_one_output"] += nz and any(all(v in ("0", "-0") for v in t) for t in trip)
+        if r != m:
+            stats["disagreements"] += 1
+            if stats["disagreements"] <= 3:
+                ctx.broken.append({"kind": "correspondence", "name": "level2-jm", "detail": {"case": c, "model": m[:600], "real": r[:600]}})
+        elif len(samples) < 2 and len(r) < 300 and " | " in r:
+            samples.append({"field": c["field"], "in_out": c["in_out"], "line": model_line(c)[:400], "output": r})
     stats["samples"] = samples
     return stats
